@@ -24,11 +24,18 @@ type Tables struct {
 	Times map[string]int64
 	QStr  map[string]bool
 	BadJs map[string]bool
+	Acts  map[string]map[string]string // action code -> {kind, tag}
+	Codes map[string]string            // condition code -> kind
 }
 
 func NewTables() *Tables {
 	t := &Tables{Bang: map[string]string{}, Ints: map[string]int64{}, Durs: map[string]int64{},
-		Times: map[string]int64{}, QStr: map[string]bool{}, BadJs: map[string]bool{}}
+		Times: map[string]int64{}, QStr: map[string]bool{}, BadJs: map[string]bool{},
+		Acts: map[string]map[string]string{}, Codes: map[string]string{}}
+	// the trivial action scripts of the basic generators return their own number
+	for _, c := range []string{"1", "2", "3", "4", "5"} {
+		t.Acts[c] = map[string]string{"kind": "num", "tag": c}
+	}
 	// property keys the code writes on its own (the specification builds the same facts)
 	for _, k := range []string{"!disabled", "!parents", "!writeKey", "!readKey", "!enabled"} {
 		t.Bang[k] = k[1:]
@@ -56,6 +63,20 @@ func (t *Tables) noteString(s string) {
 	if tm, err := time.Parse(time.RFC3339, s); err == nil {
 		t.Times[s] = tm.UTC().Unix()
 	}
+}
+
+// NoteAct registers an action script and what it does.
+func (t *Tables) NoteAct(code, kind, tag string) {
+	t.mu.Lock()
+	t.Acts[code] = map[string]string{"kind": kind, "tag": tag}
+	t.mu.Unlock()
+}
+
+// NoteCondCode registers a condition script and its kind (Query!CodeOn).
+func (t *Tables) NoteCondCode(code, kind string) {
+	t.mu.Lock()
+	t.Codes[code] = kind
+	t.mu.Unlock()
 }
 
 func (t *Tables) NoteBadJs(s string) {
@@ -178,7 +199,7 @@ func (t *Tables) Header(extra map[string]interface{}) map[string]interface{} {
 	defer t.mu.Unlock()
 	h := map[string]interface{}{
 		"ev": "header", "bang": t.Bang, "ints": t.Ints, "durs": t.Durs, "times": t.Times,
-		"qstr": keys(t.QStr), "badjs": keys(t.BadJs),
+		"qstr": keys(t.QStr), "badjs": keys(t.BadJs), "acts": t.Acts, "codes": t.Codes,
 	}
 	for k, v := range extra {
 		h[k] = v
